@@ -14,6 +14,7 @@ from vf import diffobs
 from vf import harness
 from vf import progen
 from vf import shrink as shrinker
+from vf import c01_lists
 
 ID = 'C01'
 LEVEL = 'exploration'
@@ -27,7 +28,9 @@ RULE = ('programs drawn from the constructive grammar vf.progen (assignments, if
         'input pairs under a drawn configuration (entry point, recursive, features subset of {BUILTIN_FUNCTIONS, EQUALITY_OPERATORS}, '
         'spelling). One evaluation = one (program, config, input) differential run. Non-trivial = the function under test has a '
         'jump that is not the tail return or control nesting >= 2, AND the operator spy counted >= 1 if_stmt/while_stmt/for_stmt '
-        'call while the converted function ran; distinct by SHA1 of (source, config).')
+        'call while the converted function ran; distinct by SHA1 of (source, config). A LISTS sub-tier (vf/c01_lists.py, classes prefixed '
+        '"lists:") adds programs with list literals / append / pop / item and slice reads and writes on locals and parameters under '
+        'Feature.LISTS, same oracle.')
 ASSUMPTIONS = [
     'observable behaviour = return value, ordered log of tracer/method/context-manager calls, post-state of o/d/l/module globals/closure cells, exception type',
     'values are ints/bools and containers of them; no user types with exotic __eq__/__bool__; exception messages not compared',
@@ -49,8 +52,10 @@ def HASHSEEDS(tier, seed):
 
 def budget(tier):
   if tier == 'thorough':
-    return {'programs': 16000, 'max_depth': 4, 'budget': 40, 'shrink_s': 90, 'wall_cap': 3400}
-  return {'programs': 1100, 'max_depth': 3, 'budget': 26, 'shrink_s': 25, 'wall_cap': 900}
+    return {'programs': 16000, 'max_depth': 4, 'budget': 40, 'shrink_s': 90, 'wall_cap': 3400,
+            'list_programs': c01_lists.budget_share(tier)}
+  return {'programs': 1100, 'max_depth': 3, 'budget': 26, 'shrink_s': 25, 'wall_cap': 900,
+          'list_programs': c01_lists.budget_share(tier)}
 
 
 CONFIGS = st.fixed_dictionaries({
@@ -154,12 +159,18 @@ def shard(ctx, acc):
       acc.fail(bkt, case, d)
 
   common.hyp_run(ctx, strat, body, n)
+  # LISTS sub-tier: list operations on locals/parameters under Feature.LISTS (vf/c01_lists.py)
+  c01_lists.run_shard(ctx, acc)
 
 
 def replay(case):
+  if case.get('kind') == 'lists':
+    return c01_lists.replay(case)
   fails, info = run_case(case)
   return [{'bucket': b, 'detail': d} for b, d in fails]
 
 
 def shrink(case, bucket, deadline):
+  if case.get('kind') == 'lists':
+    return c01_lists.shrink(case, bucket, deadline)
   return shrinker.shrink_case(case, bucket, replay, deadline)
